@@ -111,6 +111,8 @@ class FftHooks(Hooks):
                     it.probe('tilt_premise_failed')
                 elif any(type(t).__name__ != 'Tilt' for f in w.data for t in f.tilt):
                     it.probe('refuse:tilt-not-angular')
+            if case == 'coarse-quick-look':
+                it.probe('coarse_quick_look_first')     # outside the supported regime: outcome not judged, purity is (snapshot above)
             if exp == 'refuse':
                 it.fault('refuse')
                 it.probe('check:refuse')
@@ -184,7 +186,7 @@ class FftScenario(Scenario):
                    'per-axis pixel scales are generated commensurate with one propagation wavelength; otherwise FFT != DFT by construction',
                    'the DFT reference is the real propagate_dft (an error common to both propagators is C01/C02 territory)']
     must_hit = ['grid:odd', 'grid:even', 'odd_pupil_even_grid', 'multifield_scratch', 'scratch:exact', 'scratch:larger',
-                'grid_shrinks', 'grid_grows', 'refuse:short-scratch', 'refuse:tilt', 'refuse:big-shape', 'refuse:tilt-not-angular', 'shape_in_caller_array', 'field_view_edited_before_propagation']
+                'grid_shrinks', 'grid_grows', 'refuse:short-scratch', 'refuse:tilt', 'refuse:big-shape', 'refuse:tilt-not-angular', 'shape_in_caller_array', 'field_view_edited_before_propagation', 'coarse_quick_look_first']
     probe_names = must_hit + ['grid:mixed', 'coldwarm_audit']
 
     def make_fns(self):
@@ -301,6 +303,11 @@ class FftScenario(Scenario):
                 dua = nid('du')
                 ev.append({'c': c, 'fn': 'array', 'id': dua, 'recipe': {'kind': 'list', 'values': list(du) if isinstance(du, (list, tuple)) else [du, du]}})
                 k['pixelscale'] = '@' + dua
+            if rng.random() < 0.15 or force:
+                # a quick look on a much coarser detector first (FFT grid smaller than the pupil: outside the supported regime, any outcome):
+                # the wavefront it was given is what it was afterwards, and the judged calls below are unaffected
+                ev.append(E('propagate_fft', ['@' + w1], {'pixelscale': (du if isinstance(du, float) else du[0]) * rng.choice([4, 6]), 'oversample': 1},
+                            t={'case': 'coarse-quick-look'}))
             rs = rn = None
             tag = {'expect': 'ok', 'case': 'plain', 'nfields': nfields}
             if sc is not None:
